@@ -1,37 +1,50 @@
 """C17 - calendars and the availability search mean exactly what they say.   (DESIGN.md section 5, C17)
 
-Obligations (spec side = the property sentence; today's tree proves all of them, F22-F26 are fixed):
+Obligations (spec side = the property sentence; today's tree proves all of them, F22-F26 are fixed).  Floors are the
+numbers of sites confirmed by reading the tree at /repo cc2b0a3:
 
-  op_table            R10  dunder -> combinator class -> arithmetic operator (`+ - * /`), `|` = first positive operand,
-                           operands handed over in the written order [self, other]
-  combinator_result   R10  Sum/Mul/Div return the accumulator unchanged; Sub returns None exactly when nothing
+  op_table            R10  floor 10  dunder -> combinator class -> arithmetic operator (`+ - * /`), `|` = first positive
+                           operand, operands handed over in the written order [self, other]   (5 dunders + 5 folds)
+  promotion           R11  floor 6   all five dunders wrap `other` with one helper that turns int/float into
+                           FixedCalendar(other) and leaves calendars alone   (5 dunders + the helper)
+  combinator_result   R10  floor 4   Sum/Mul/Div return the accumulator unchanged; Sub returns None exactly when nothing
                            contributed or the difference is negative (`< 0`; zero is a value, not "no information")
-  fold_siblings       R11  the four arithmetic combinators skip exactly the None operands, start from the first
+  fold_siblings       R11  floor 4   the four arithmetic combinators skip exactly the None operands, start from the first
                            informative operand, combine every later one, iterate the constructor's operands in order
                            and ask every operand about the date they were asked about
-  promotion           R11  all five dunders wrap `other` with one helper that turns int/float into FixedCalendar(other)
-  validation          R2   guard table: weekdays outside 0..6 (list form and dict keys), start > end (Weekly, Fixed),
-                           division by the number zero; all RuntimeError
-  units_nonnegative   R3   every value stored into calendar state (Weekly day table, Fixed units, Direct table in the
-                           constructor and in set_units) is dominated by a `value < 0 -> raise RuntimeError` test
-  dead_validator      R5   every private `__check_*` method has a reachable call site in the reach of its class's
-                           __init__ / set_units
-  leaf_semantics      R8   Weekly: day table[weekday] inside validity (bounds included), None outside; table total on
-                           0..6 and built as the property says; Fixed: units inside, 0 outside; Direct: stored value
-                           for midnight(date), None otherwise; constructor and set_units both key by midnight(date)
-  none_is_zero        R8   Resource.get_available_units: 0 for None, the calendar value otherwise, no state written
-  search              R8/R6c  IResource.get_nearest_availability_date: counter from 0, `while counter < max_days`,
+  validation          R2   floor 5   guard table: weekdays outside 0..6 (list form and dict keys, each on the path that
+                           builds the day table from that argument), start > end (Weekly, Fixed), division by the
+                           number zero (int and float); all RuntimeError
+  units_nonnegative   R3   floor 5   every value stored into calendar state by any method of the class (Weekly day table x2,
+                           Fixed units, Direct table in __init__ and set_units) is dominated by a
+                           `value < 0 -> raise RuntimeError` test of that same value / of every value of the mapping
+  dead_validator      R5   floor 3   every private `__check_*` method has a reachable call site in the reach of its
+                           class's __init__ / set_units
+  leaf_semantics      R8   floor 8   Weekly: day table[weekday()] inside validity (bounds included, absent bound =
+                           unbounded), None outside; table total on 0..6 and = units on configured days / 0 otherwise
+                           (both forms); Fixed: units inside, 0 outside; Direct: stored value for midnight(date), None
+                           otherwise; constructor and set_units both key by midnight(date) and store the value as given
+  none_is_zero        R8   floor 2   Resource.get_available_units: 0 for None, the calendar value otherwise, for the date
+                           asked, no state written (a memo is a violation; shared with C03)
+  search              R8/R6c floor 7 IResource.get_nearest_availability_date: counter from 0, `while counter < max_days`,
                            forward tests the current date, backward tests date - 1 day, capacity `> 0`, returns the
-                           unmodified current date, date += direction days and counter += 1 once on every iteration and
-                           after every use of the date, RuntimeError (and nothing else) after the loop
+                           unmodified current date, date += direction days and counter += 1 exactly once on every
+                           iteration and after the last use of the date, RuntimeError (and nothing else) after the loop
 
 The decision procedures evaluate the (loop free) blocks over finite abstract domains (see c17_util): unit values by
 sign class {None, <0, 0, >0}, dates by their position against a validity interval, direction in {-1, +1}.
 
 Not decided: float arithmetic; a divisor *calendar* that yields 0 on some date (ZeroDivisionError at query time - the
 property only speaks of the number zero); time-of-day comparisons against day-precision bounds (the code's `<` / `>`
-are taken as "inside their validity", bounds included); FuncCalendar / apply; that DirectCalendar.__units is only ever
-written by __init__ / set_units (R1, C06 territory); the meaning of `max_days <= 0`.
+are taken as "inside their validity", bounds included); FuncCalendar / apply; that the unit fields are only written by
+methods of their own class (R1, C06 territory); merge-vs-replace and override order of DirectCalendar.set_units;
+the meaning of `max_days <= 0`; a search written as `for _ in range(max_days)` ends UNDECIDED (shape not armed).
+
+Engine limitations worked around in rules/c17_util.py: `cfg.enclosing_fors` / `facts.guards_of` lose the loop binders
+of a `raise` (a raise cannot reach the loop header again) -> `fors_around` (syntactic); multi-statement validators are
+not inlined by `Expander` -> `guard_facts` instantiates the helper's raises at the call site; path conditions that only
+say "an earlier guard did not fire" -> `live_conditions(drop_raising=True)`; `pat.same` needs contexts, so patterns are
+built by parsing text (`_e`).
 """
 from __future__ import annotations
 
@@ -46,8 +59,6 @@ from sa.model import walk_no_nested, src, unmangle
 from sa.pat import match, same, names_in
 from . import c17_util as U
 from .c17_util import Ev, run_block
-
-P = ast.parse
 
 
 def _e(text: str) -> ast.AST:
@@ -676,6 +687,10 @@ def _start_end_guard(ctx, o, f, gs, cls):
                     o.undecided(g.func, g.raise_node, g.raise_node, f"{cls}: start/end test is part of a larger disjunction")
                     return
                 extra = [x for x in g.clauses if x is not cl and not U.is_mode_clause(x, ('start', 'end'))]
+                if extra and all(U.is_mode_clause(x) for x in extra):
+                    o.refute(g.func, g.raise_node, g.raise_node, f"{cls}: the start/end check only runs when " +
+                             '; '.join(U.clause_text(x) for x in extra) + ": in the other configurations start after end is accepted")
+                    return
                 if extra:
                     o.undecided(g.func, g.raise_node, g.raise_node, f"{cls}: start/end check is conditional on " +
                                 '; '.join(U.clause_text(x) for x in extra))
@@ -1566,6 +1581,8 @@ def _search(ctx):
                 if off is None:
                     o.undecided(f, n, n, f"capacity is queried for `{src(a)[:60]}`")
                     return None
+                if float(off).is_integer():
+                    off = int(off)
                 out.setdefault(off, []).append(xc)
             return out
         # ---- (b) one iteration, over direction x capacities
